@@ -146,6 +146,32 @@ theorem bitwisenot_glue_witness :
     sql baseTables (.bnot (.bnot (.col [("a", false)]))) = "~ ~a" ∧
     sql baseTables (.neg (.neg (.col [("a", false)]))) = "- -a" := by decide +kernel
 
+/-! ### infix → call rewrites that strip a redundant Paren (e.g. BigQuery `a % b` → `MOD(a, b)`) -/
+
+/-- every generator site found by ast that unwraps a Paren around an operand strips ALL levels (`unnest()`) or keeps the
+    Paren; none strips exactly one level (finite table, decided completely) -/
+theorem generated_paren_unwraps_all : ∀ s ∈ parenUnwrapSites, s.2 ≠ Engine.Unwrap.one := by decide +kernel
+
+/-- print ∘ parse ∘ print = print for the strip-all printer: the operand printed by the first pass (`unnest e`), whatever
+    Paren the parser puts back around it (`rewrap`, or any number of explicit levels), is printed the same again -/
+theorem unnest_print_parse_fixpoint (e : Expr) :
+    unnest (rewrap (unnest e)) = unnest e ∧ unnest (.paren (unnest e)) = unnest e ∧ unnest (unnest e) = unnest e := by
+  refine ⟨?_, ?_, unnest_idem e⟩
+  · unfold rewrap
+    split
+    · simp [unnest, unnest_idem]
+    · exact unnest_idem e
+  · simp [unnest, unnest_idem]
+
+example : unnest (.paren (.paren (.bin "Add" (.col [("a", false)]) (.num "1")))) = .bin "Add" (.col [("a", false)]) (.num "1") := rfl
+
+/-- the strip-one printer is not idempotent on an operand with two redundant levels: `((a + 1)) % 7` prints
+    `MOD((a + 1), 7)`; that argument re-parses to Paren(a + 1), which the second pass prints as `MOD(a + 1, 7)` -/
+theorem strip_one_level_counterexample :
+    sql baseTables (stripOne (.paren (.paren (.bin "Add" (.col [("a", false)]) (.num "1"))))) = "(a + 1)" ∧
+    sql baseTables (stripOne (stripOne (.paren (.paren (.bin "Add" (.col [("a", false)]) (.num "1")))))) = "a + 1" ∧
+    sql baseTables (unnest (.paren (.paren (.bin "Add" (.col [("a", false)]) (.num "1"))))) = "a + 1" := by decide +kernel
+
 /-! ### Athena: the tokenizer-side and the generator-side engine decision -/
 
 /-- FINITE TABLE, decided completely: on every enumerated statement shape the model's two predicates give what the
